@@ -57,6 +57,9 @@ def _one(args):
             x.update({'text': text, 'expected': {'out': m['out'][-40:], 'outcome': m['outcome']}})
             mism.append(x)
     shape = hashlib.sha1(texts[0].encode()).hexdigest()[:16]
+    for x in mism:
+        if x['kind'] == 'violation' and case.get('sig_prefix'):
+            x['why'] = case['sig_prefix'] + x['why']
     return {'idx': idx, 'mism': mism, 'evals': evals, 'shape': shape, 'tags': sorted(case.get('tags', ())),
             'nontrivial': case.get('nontrivial', True) and m['steps'] > 20, 'sample': texts[0][:700],
             'outcome': m['outcome'], 'unwinds': m['unwinds'], 'calls': m['calls'], 'out_lines': len(m['out']),
